@@ -54,9 +54,12 @@ func (m *MethodScope) resolveVarNameConflict(suggested string) string {
 		}
 
 		if n == 1 {
-			conflict, _ := m.searchVar(suggested)
-			conflict.Name += "1"
-			m.conflicted[suggested] = true
+			// The first holder of the name may have been renamed again in the
+			// meantime (an import called <name>1 turns it into <name>1MoqParam).
+			if conflict, ok := m.searchVar(suggested); ok {
+				conflict.Name += "1"
+				m.conflicted[suggested] = true
+			}
 			continue
 		}
 		return suggested + strconv.Itoa(n)
